@@ -654,8 +654,9 @@ def normalize_merchant(
                 result_pattern = pattern
                 result_source = source
 
-        except (re.error, expr_parser.ExpressionError):
-            # Invalid pattern, skip
+        except (re.error, OverflowError, expr_parser.ExpressionError):
+            # Invalid pattern, skip (re.compile reports an over-long repetition
+            # count such as a{4294967296} as OverflowError, not re.error)
             continue
 
     # Return matched result with all collected tags (deduplicated, order preserved)
